@@ -406,13 +406,16 @@ func runC12(c *core.Ctx, o Options) {
 			if _, isMap := r.X.Type().Underlying().(*types.Map); !isMap {
 				return
 			}
-			why, okA := allowed[an.NameOf(fn)]
-			ob := c.Ob("d", an.NameOf(fn), "range over map "+an.Render(r.X), r.Pos())
+			// a helper cut out of a tabled function (unexported, one call site) stands for that function
+			owner, _ := an.LogicalOwner(fn)
+			ownerName := an.NameOf(owner)
+			why, okA := allowed[ownerName]
+			ob := c.Ob("d", ownerName, "range over map "+an.Render(r.X), r.Pos())
 			if !okA {
 				ob.Fail("iteration over a map in the generator outside the tabled places: its order is random per run, so anything derived from it (which definition of a group wins, the order of emitted text) makes generation non-deterministic")
 				return
 			}
-			if an.NameOf(fn) == "Execute" {
+			if ownerName == "Execute" {
 				// premise: the loop body only writes one file named after the element
 				okBody := true
 				for _, b := range fn.Blocks {
@@ -429,7 +432,7 @@ func runC12(c *core.Ctx, o Options) {
 					return
 				}
 			}
-			if an.NameOf(fn) == "sortedMapKeys" {
+			if ownerName == "sortedMapKeys" {
 				sorted := false
 				an.AllInstrs(fn, func(i2 ssa.Instruction) {
 					if call, isCall := i2.(*ssa.Call); isCall {
@@ -566,14 +569,19 @@ func runC12(c *core.Ctx, o Options) {
 	ex := c.Func("generator", "Generator.Execute")
 	if c.Anchor("Execute", ex != nil, "Generator.Execute", posOf(ex)) {
 		var ck *ssa.Call
-		an.AllInstrs(ex, func(in ssa.Instruction) {
-			if call, ok := in.(*ssa.Call); ok && an.CalleeIs(&call.Call, "generator", "Generator.checkName") {
-				ck = call
+		for _, fn := range pkgFuncs(gen) {
+			if owner, _ := an.LogicalOwner(fn); owner != ex {
+				continue
 			}
-		})
+			an.AllInstrs(fn, func(in ssa.Instruction) {
+				if call, ok := in.(*ssa.Call); ok && an.CalleeIs(&call.Call, "generator", "Generator.checkName") {
+					ck = call
+				}
+			})
+		}
 		r := ""
 		if ck != nil {
-			r = an.Render(ck.Call.Args[1])
+			r = an.RenderSubst(ck.Call.Args[1], an.OwnerSub(ck.Parent()))
 		}
 		okE := r == `strings.ReplaceAll(filepath.Base(filepath.Clean(outputDirPath)), "-", "_")` || r == `strings.ReplaceAll(filepath.Base(outputDirPath), "-", "_")`
 		c.Check(okE, "e", "Execute", "the package name is the base name of the output directory", ex.Pos(), r, "the package name is derived as "+r+": it depends on where the output directory is located, not only on its name")
